@@ -277,7 +277,7 @@ def judge(chk: Check, cases: T.List[T.Dict[str, T.Any]], label: str) -> None:
         with scratch('c18-') as d:
             tf = d / 'cases.json'
             tf.write_text(json.dumps([{k: c[k] for k in ('id', 's', 'ev', 'exit', 'cls')} for c in part]))
-            res = run_tlc(SPECS / 'tap', 'TraceTAP', env={'TRACE_FILE': str(tf)}, timeout=3600, heap='12g')
+            res = run_tlc(SPECS / 'tap', 'TraceTAP', env={'TRACE_FILE': str(tf)}, timeout=3600, heap='8g')
             bad = res.json_lines()
             if not res.clean:
                 raise MachineryError('TraceTAP did not complete cleanly:\n' + res.stdout[-1500:])
@@ -285,7 +285,7 @@ def judge(chk: Check, cases: T.List[T.Dict[str, T.Any]], label: str) -> None:
                 raise MachineryError(f'TraceTAP judged {res.distinct // 2} of {len(part)} cases')
             if bad:
                 # re-run single-threaded so that the report is not interleaved
-                res1 = run_tlc(SPECS / 'tap', 'TraceTAP', env={'TRACE_FILE': str(tf)}, timeout=3600, workers=1, heap='12g')
+                res1 = run_tlc(SPECS / 'tap', 'TraceTAP', env={'TRACE_FILE': str(tf)}, timeout=3600, workers=1, heap='8g')
                 bad = res1.json_lines()
         chk.add_tlc(f'TraceTAP[{label}#{part_no}]', res, model=False)
         chk.traces += len(part)
@@ -318,7 +318,7 @@ def main(chk: Check) -> None:
            'INVARIANT OperationalEqualsDeclarative\nINVARIANT RunIsIncremental\nINVARIANT OneSubtestPerTestLine\n'
            'INVARIANT BadStaysBad\nINVARIANT TypeOK\nCHECK_DEADLOCK FALSE\nPOSTCONDITION EmitAlphabet\n' % n_mc)
     res = run_tlc(SPECS / 'tap', 'TAP_MC', cfg_text=cfg, collect=['alphabet.json'], timeout=3600,
-                  allow_violation=False, heap='12g')
+                  allow_violation=False, heap='8g')
     chk.add_tlc(f'TAP_MC[MaxLen={n_mc}]', res)
     alphabet = json.loads(res.collected['alphabet.json'])
     chk.extra['alphabet_size'] = len(alphabet)
